@@ -43,6 +43,9 @@ def check(run):
     ready(R)
     eof(R)
     C15.close(R, RID='C07.timeout')
+    with R.as_rule('C07.timeout'):
+        C15.pong(R)          # the ping timeout fires whenever due (Unresponsive -> Disconnected: iteration ends)
+        C15.cadence(R)
 
 
 def _event_names(R, g, rd, y):
